@@ -421,6 +421,14 @@ def cond_facts(f, cond, truth, extra=None):
             if key:
                 nonnull = (op == "!=") == truth
                 out.add(("nn" if nonnull else "null", key))
+        else:
+            # two pointers known to differ: together with "both null or both non-null" this means both non-null
+            ta, tb = f.type(strip_casts(a)), f.type(strip_casts(b))
+            ptrish = lambda t: t is not None and (t.get("ptr") or "shared_ptr" in (t.get("c") or ""))
+            if ptrish(ta) and ptrish(tb) and (op == "!=") == truth:
+                ka, kb = ptr_key(f, a), ptr_key(f, b)
+                if ka and kb:
+                    out.add(("ne", ka + "\x00" + kb))
         return out
     # plain pointer / condition variable / bool-convertible value
     t = f.type(n)
@@ -482,6 +490,11 @@ def close_samenull(st):
     if not pairs:
         return st
     out = set(st)
+    differ = {frozenset(x[1].split("\x00")) for x in st if x[0] == "ne"}
+    for a, b in pairs:
+        if frozenset((a, b)) in differ:          # not both null (they would be equal), hence both non-null
+            out.add(("nn", a))
+            out.add(("nn", b))
     changed = True
     while changed:
         changed = False
